@@ -115,6 +115,7 @@ def correspondence(ctx):
     # the stage rendition of the same household: its aggregates must follow the same executable model (terminal value = the first stage's continuation value,
     # initial distribution = the first stage's beginning-of-stage distribution)
     sblk = m.toy_stage
+    sexprs, scases = [], []
     n_stage = 6 if ctx['tier'] == 'quick' else 40
     for _ in range(n_stage):
         g = gen_toy(rng)
@@ -135,7 +136,26 @@ def correspondence(ctx):
         exprs.append(f'run_toy {g["nz"]} {g["na"]} {T} {C.coq_list(g["a_grid"], qf)} {C.coq_list(g["e_grid"], qf)} {qarr(g["Pi"])} {qf(g["kappa"])} {ins} '
                      f'{qarr(it["stage0"]["V"])} {qarr(it["Pi"])} {qarr(Dbeg0)}')
         cases.append((dict(g, formulation='stage'), got))
+        # ... and the executable instance of the STAGE loops themselves (Model/StageLoop.v, Model/StagePath.v): terminal condition = the backward input of the final stage
+        sexprs.append(f'run_toy_stage {g["nz"]} {g["na"]} {T} {C.coq_list(g["a_grid"], qf)} {C.coq_list(g["e_grid"], qf)} {qarr(g["Pi"])} {qf(g["kappa"])} {ins} '
+                      f'{qarr(it["stage1"]["V"])} {qarr(Dbeg0)}')
+        scases.append((dict(g, formulation='stage'), got))
     vals, logs = C.eval_in_coq('C09', HEADER_TOY, exprs, chunk=3, tag='toy')
+    svals, slogs = C.eval_in_coq('C09', HEADER_TOY.replace('Model.HetPath.', 'Model.HetPath Model.StageLoop Model.StagePath.'), sexprs, chunk=3, tag='toystage')
+    logs = logs + slogs
+    for (g, got), vm in zip(scases, svals):
+        if vm is None:
+            continue
+        fwd_s, agg_s = vm
+        bad = []
+        for t in range(g['T']):
+            ag = agg_s[t] if len(agg_s[t]) == 2 else ((agg_s[t][0], agg_s[t][1]), agg_s[t][2])      # Coq prints ((a, b), (c, d)) as (a, b, (c, d))
+            for k, x in zip(('A', 'C'), ag):
+                if abs(float(Fraction(int(x[0]), int(x[1]))) - got[k][t]) > 1e-10 * max(1.0, abs(got[k][t])):
+                    bad.append(f'{k}[{t}]')
+        stats['stage_loop_cases'] = stats.get('stage_loop_cases', 0) + 1
+        if bad:
+            dis.append(dict(what='StageBlock.impulse_nonlinear of the stage rendition differs from the executable model of the STAGE loops (reverse-order backward step, stage-to-stage forward pass)', case=dict(g, differing=bad[:8])))
     fr = lambda x: float(Fraction(int(x[0]), int(x[1])))
     A2 = lambda M: np.array([[fr(x) for x in r] for r in M])
     for (g, got), vm in zip(cases, vals):
@@ -167,11 +187,11 @@ def correspondence(ctx):
             dis.append(dict(what='HetBlock.impulse_nonlinear differs from the executable model of the backward/forward recursions', case=dict(g, differing=bad[:8])))
     for l in logs:
         dis.append(dict(what='coq evaluation failed', log=l))
-    return dict(evaluations=len(exprs), distinct_nontrivial=len({C.canon(c[0]) for c in cases}),
+    return dict(evaluations=len(exprs) + len(sexprs), distinct_nontrivial=len({C.canon(c[0]) for c in cases}),
                 rule='fixture household (2-3 income states, 4-6 asset grid points evenly or unevenly spaced, polynomial backward step V = V_p/2 + c with the asset policy clipped to the grid, Markov matrix '
                      'shifted by a hetinput): dyadic shocks to r, w and the Markov shifter, horizons 3-5, 35% started from a distinct initial steady state; individual paths of V, a, c (1e-11), distribution '
                      'paths D and Dbeg (1e-12) and aggregates A, C at every date vs the rational model, which is given the terminal V, the steady-state Markov matrix and the initial Dbeg of the implementation; '
-                     'the same household as a StageBlock (exogenous stage, continuous-choice stage): aggregates A, C at every date vs the same model (1e-10)',
+                     'the same household as a StageBlock (exogenous stage, continuous-choice stage): aggregates A, C at every date vs the same model and vs the executable instance of the stage loops (Model/StagePath.v) (1e-10)',
                 samples=[{k: v for k, v in cases[0][0].items()}] if cases else [], disagreements=dis, stats=stats)
 
 
